@@ -299,6 +299,101 @@ func concChild(a mon.Args) {
 	os.Exit(0)
 }
 
+// agedOut is what the aged-entries child reports.
+type agedOut struct {
+	Proto           string   `json:"proto"`
+	Keys            int      `json:"keys"`
+	Rounds          int      `json:"rounds"`
+	Reannouncements int64    `json:"identical_reannouncements"`
+	Lookups         int64    `json:"lookups"`
+	Bad             []string `json:"bad,omitempty"`
+}
+
+// concAgedChild: cache entries carry the time of their announcement. Exporters repeat their templates
+// unchanged for days, so "the same definition again, seconds later, from many workers at once" is the
+// everyday concurrent operation on an entry - and one that no history shorter than a second ever
+// produces. All keys are announced once; then, around each of three wall-clock second boundaries,
+// 16 goroutines re-announce the SAME definitions and look them up. Every lookup must still see the
+// key's definition; the race detector watches the locking.
+func concAgedChild(a mon.Args) {
+	var seed int64
+	fmt.Sscan(a.Rest["seed"], &seed)
+	out, err := os.Create(a.Rest["out"])
+	if err != nil {
+		os.Exit(3)
+	}
+	enc := json.NewEncoder(out)
+	var wgp sync.WaitGroup
+	var omu sync.Mutex
+	for _, proto := range []string{"ipfix", "nf9"} {
+		wgp.Add(1)
+		go func(proto string) {
+			defer wgp.Done()
+			api := newCacheAPI(proto, "")
+			var keys []concKey
+			for e := 0; e < 96; e++ {
+				for id := 0; id < 4; id++ {
+					keys = append(keys, concKey{Addr: fullCap([]byte{10, 9, byte(e), byte(1 + e%200)}), ID: uint16(256 + id)})
+				}
+			}
+			ver := func(ki int) int { return 1 + ki%200 }
+			for ki, k := range keys {
+				api.write(k, ver(ki))
+			}
+			res := agedOut{Proto: proto, Keys: len(keys), Rounds: 3}
+			var bmu sync.Mutex
+			for round := 0; round < res.Rounds; round++ {
+				// start 40 ms before the next second boundary and keep going for 40 ms after it
+				next := time.Now().Truncate(time.Second).Add(time.Second)
+				if time.Until(next) < 60*time.Millisecond {
+					next = next.Add(time.Second)
+				}
+				time.Sleep(time.Until(next) - 40*time.Millisecond)
+				stop := next.Add(40 * time.Millisecond)
+				var wg sync.WaitGroup
+				for gi := 0; gi < 16; gi++ {
+					wg.Add(1)
+					go func(gi int) {
+						defer wg.Done()
+						g := mon.NewRNG(seed, fmt.Sprintf("aged-%s-%d", proto, round), gi)
+						for n := 0; time.Now().Before(stop) || n < 200; n++ {
+							ki := g.Intn(len(keys))
+							switch g.Intn(3) {
+							case 0:
+								api.write(keys[ki], ver(ki))
+								atomic.AddInt64(&res.Reannouncements, 1)
+							default:
+								var v int
+								var note string
+								if proto == "ipfix" && g.Bool() {
+									v, note = api.get(keys[ki])
+								} else {
+									v, note = api.read(keys[ki])
+								}
+								atomic.AddInt64(&res.Lookups, 1)
+								if v != ver(ki) {
+									bmu.Lock()
+									if len(res.Bad) < 20 {
+										res.Bad = append(res.Bad, fmt.Sprintf("round %d: lookup of key %d (%x, %d) observed v%d %s; only v%d was ever announced for it", round, ki, keys[ki].Addr, keys[ki].ID, v, note, ver(ki)))
+									}
+									bmu.Unlock()
+								}
+							}
+						}
+					}(gi)
+				}
+				wg.Wait()
+			}
+			omu.Lock()
+			enc.Encode(res)
+			omu.Unlock()
+		}(proto)
+	}
+	wgp.Wait()
+	out.Close()
+	os.Exit(0)
+}
+
 func pickOp(r, w, rd, get, dump int) string {
 	switch {
 	case r < w:
@@ -421,6 +516,10 @@ type concWitness struct {
 }
 
 func concMain(args mon.Args) {
+	if _, ok := args.Rest["conc-aged-child"]; ok {
+		concAgedChild(args)
+		return
+	}
 	if _, ok := args.Rest["conc-child"]; ok {
 		concChild(args)
 		return
@@ -550,6 +649,69 @@ func concMain(args mon.Args) {
 					concWitness{Seed: seed, History: j.from, Gomaxprocs: j.procs, Stderr: clip(txt, 4000)})
 			}
 		}(ji, j)
+	}
+	// aged entries: identical re-announcements across wall-clock second boundaries (one child, alongside)
+	var aged []agedOut
+	if args.Replay == "" {
+		dir := filepath.Join(runDir, "aged")
+		os.MkdirAll(dir, 0o755)
+		outF := filepath.Join(dir, "aged.jsonl")
+		cmd := exec.Command(raceBin, "--prop", "C10", "--conc-aged-child", "1", "--seed", fmt.Sprint(seed), "--out", outF)
+		cmd.Env = append(os.Environ(), "GOMAXPROCS=16", "GORACE=halt_on_error=0 exitcode=0 log_path="+filepath.Join(dir, "race"))
+		errF, _ := os.Create(filepath.Join(dir, "stderr"))
+		cmd.Stderr, cmd.Stdout = errF, errF
+		cmd.SysProcAttr = &syscall.SysProcAttr{Pdeathsig: syscall.SIGKILL}
+		done := make(chan error, 1)
+		if err := cmd.Start(); err != nil {
+			run.HarnessError(err.Error())
+		} else {
+			go func() { done <- cmd.Wait() }()
+			select {
+			case werr := <-done:
+				errF.Close()
+				if werr != nil {
+					se, _ := os.ReadFile(filepath.Join(dir, "stderr"))
+					txt := string(se)
+					sig := "conc:aged:child-died"
+					if i := strings.Index(txt, "fatal error:"); i >= 0 {
+						l := txt[i:]
+						if k := strings.IndexByte(l, '\n'); k > 0 {
+							l = l[:k]
+						}
+						sig = "conc:aged:" + l
+					}
+					run.Violation(sig, fmt.Sprintf("the process re-announcing unchanged templates across second boundaries died: %v; stderr head: %s", werr, clip(txt, 600)),
+						concWitness{Seed: seed, History: -1, Stderr: clip(txt, 4000)})
+				}
+			case <-time.After(5 * time.Minute):
+				cmd.Process.Kill()
+				<-done
+				run.Inconclusive("aged-entries child: wall-clock watchdog fired")
+			}
+			mu.Lock()
+			races = append(races, parseRaceLogs(filepath.Join(dir, "race.*"))...)
+			mu.Unlock()
+			if f, err := os.Open(outF); err == nil {
+				dec := json.NewDecoder(f)
+				for {
+					var ao agedOut
+					if dec.Decode(&ao) != nil {
+						break
+					}
+					aged = append(aged, ao)
+					run.Eval(1)
+					run.Distinct("aged|" + ao.Proto)
+					for _, b := range ao.Bad {
+						run.Violation("conc:aged:lookup-after-identical-reannouncement", ao.Proto+": "+b, concWitness{Seed: seed, History: -1, Setup: "aged entries " + ao.Proto})
+						break
+					}
+				}
+				f.Close()
+			}
+			if len(aged) < 2 {
+				run.Inconclusive("aged-entries child reported fewer than two protocols")
+			}
+		}
 	}
 	wg.Wait()
 
@@ -698,12 +860,13 @@ func concMain(args mon.Args) {
 	run.Set("lookups_that_returned_a_concurrently_announced_definition", nConcReads)
 	run.Set("dump_lookup_pairs_overlapping_an_announcement", nDumpsOverW)
 	run.Set("porcupine", map[string]int64{"illegal": nIllegal, "timeout": nUnknown, "ok": nParts - nIllegal - nUnknown})
+	run.Set("aged_entries_phase", aged)
 	run.Set("race_reports_by_attribution", attr)
 	run.Set("race_reports_by_entry_pair", byEntry)
 	if nOverlap == 0 || nConcReads == 0 {
 		run.HarnessError("no overlapping operations were observed: the workload did not produce concurrency")
 	}
-	run.SetRule("race-detector build of the harness+vflow; per history 4-32 goroutines (writer-, reader-, getter-, dumper-leaning roles) over 2-8 (exporter,id) keys, overlapping or disjoint, 200-2000 operations, GOMAXPROCS 2/4/16; every client call recorded {goroutine,key,op,call,return,result} from one monotonic clock: announce(v) = Decode of a template message whose field lengths encode a per-key unique version, lookup = Decode of a data set (version read off the decoded record shape) or IRPC.Get, and every Dump file is loaded back with GetCache and contributes one lookup per key over the dump's interval. Oracles: race log (attributed by frames), child survival, 'observed a complete, announced definition', and porcupine linearizability per key against a register model. distinct = histories with > 50 operations")
+	run.SetRule("race-detector build of the harness+vflow; per history 4-32 goroutines (writer-, reader-, getter-, dumper-leaning roles) over 2-8 (exporter,id) keys, overlapping or disjoint, 200-2000 operations, GOMAXPROCS 2/4/16; every client call recorded {goroutine,key,op,call,return,result} from one monotonic clock: announce(v) = Decode of a template message whose field lengths encode a per-key unique version, lookup = Decode of a data set (version read off the decoded record shape) or IRPC.Get, and every Dump file is loaded back with GetCache and contributes one lookup per key over the dump's interval. A further child announces 384 keys per protocol once and then, around three wall-clock second boundaries, lets 16 goroutines re-announce the SAME definitions and look them up (cache entries carry their announcement time; an unchanged re-announcement seconds later is the everyday concurrent operation no sub-second history produces). Oracles: race log (attributed by frames), child survival, 'observed a complete, announced definition', and porcupine linearizability per key against a register model. distinct = histories with > 50 operations")
 	run.Assume("only schedules that occurred are judged; the race detector makes the locking discipline itself observable beyond them")
 	run.Finish()
 }
